@@ -11,6 +11,7 @@
 #include <ompl/base/samplers/BridgeTestValidStateSampler.h>
 #include <ompl/base/samplers/MaximizeClearanceValidStateSampler.h>
 #include <ompl/base/samplers/MinimumClearanceValidStateSampler.h>
+#include <ompl/base/samplers/DeterministicStateSampler.h>
 #include <ompl/util/Console.h>
 
 using namespace vsp;
@@ -487,6 +488,52 @@ static void runValid(const std::string &job, const vf::Args &a, vf::Report &rep)
     si->freeState(near);
 }
 
+// ---- deterministic (Halton) state samplers: the stream is fixed, so the enumerated space is a prefix of it for a set of bounds ----
+static void runHalton(const vf::Args &a, vf::Report &rep)
+{
+    size_t N = a.thorough() ? 65536 : 8192;
+    auto rj = [](const std::string &sp, size_t i) { return "{\"mode\":\"halton\",\"space\":" + vf::jesc(sp) + ",\"index\":" + std::to_string(i) + "}"; };
+    auto drive = [&](const std::string &name, const ob::StateSpacePtr &sp, const ob::StateSamplerPtr &smp) {
+        ob::State *s = sp->allocState();
+        vf::Hash acc;
+        acc.adds(name);
+        for (size_t i = 0; i < N; ++i)
+        {
+            smp->sampleUniform(s);
+            rep.evaluations++;
+            rep.transitions++;
+            if (!sp->satisfiesBounds(s))
+            {
+                rep.fail("C08|deterministic-sampler|out-of-bounds|" + name, "sample " + std::to_string(i) + " of the Halton state sampler violates the bounds", rj(name, i));
+                break;
+            }
+            std::vector<double> r;
+            sp->copyToReals(r, s);
+            for (double d : r)
+                acc.addd(d);
+        }
+        rep.outcomes.insert(acc.h);
+        rep.nontrivial.insert(acc.h);
+        rep.states++;
+        sp->freeState(s);
+    };
+    for (auto &b : std::vector<std::pair<double, double>>{{0, 1}, {-3, 7}, {-1e6, -1e6 + 1}, {1000, 1000}, {-2.5, -0.5}})
+    {
+        auto rv = std::make_shared<ob::RealVectorStateSpace>(3);
+        rv->setBounds(b.first, b.second);
+        drive("R3[" + vf::jnum(b.first) + "," + vf::jnum(b.second) + "]", rv, std::make_shared<ob::RealVectorDeterministicStateSampler>(rv.get()));
+        auto se2 = std::make_shared<ob::SE2StateSpace>();
+        ob::RealVectorBounds bb(2);
+        bb.setLow(b.first);
+        bb.setHigh(b.second);
+        se2->setBounds(bb);
+        drive("SE2[" + vf::jnum(b.first) + "," + vf::jnum(b.second) + "]", se2, std::make_shared<ob::SE2DeterministicStateSampler>(se2.get()));
+    }
+    auto so2 = std::make_shared<ob::SO2StateSpace>();
+    drive("SO2", so2, std::make_shared<ob::SO2DeterministicStateSampler>(so2.get()));
+    rep.bounds["halton_prefix"] = std::to_string(N);
+}
+
 int main(int argc, char **argv)
 {
     ompl::msg::setLogLevel(ompl::msg::LOG_NONE);
@@ -506,6 +553,7 @@ int main(int argc, char **argv)
             j.push_back("sampler-" + n);
         }
         j.push_back("rng-ranges");
+        j.push_back("halton");
         for (const char *k : {"uniform", "gaussian", "obstacle", "bridge", "maxclear", "minclear"})
             for (const char *s : {"R2", "SE2"})
                 j.push_back(std::string("valid-") + k + "-" + s);
@@ -518,6 +566,8 @@ int main(int argc, char **argv)
             runSamplers(job.substr(8), a, r);
         else if (job == "rng-ranges")
             runRngRanges(a, r);
+        else if (job == "halton")
+            runHalton(a, r);
         else
             runValid(job, a, r);
         r.rule = "enforceBounds: lattice states + (products of) wild per-coordinate alphabets (many periods away, +-pi, +-1ulp outside, 1e300, denormalised/near-zero quaternions, out-of-range "
@@ -539,6 +589,8 @@ int main(int argc, char **argv)
             runSamplers(v["space"].s, a, r);
         else if (mode == "rng")
             runRngRanges(a, r);
+        else if (mode == "halton")
+            runHalton(a, r);
         else
             runValid(v["job"].s, a, r);
         for (auto &f : r.failures)
